@@ -87,10 +87,10 @@ def place (family : String) (named automatic default : Bool) : Option Box6 :=
      else none)
   else none
 
-/-- `_set_automatic_name`: one more than the largest `odfdo_auto_<n>` among the automatic styles of
-    the family (content.xml: font-face-decls, automatic-styles; styles.xml: automatic-styles) -/
+/-- `_set_automatic_name`: one more than the largest `odfdo_auto_<n>` among the styles of the family
+    that `Document.get_styles(family)` lists: the containers the lookup of that family searches -/
 def autoIndex (d : Doc) (family : String) : Nat :=
-  ((d.cFont ++ d.cAuto ++ d.sAuto).filter (fun s => s.family = family)).foldl (fun m s =>
+  (((contentContexts family ++ stylesContexts family).flatMap d.box).filter (fun s => s.family = family)).foldl (fun m s =>
     match s.name with
     | some (.auto n) => max m n
     | _ => m) 0
